@@ -48,7 +48,8 @@ SPEC = dict(
     design_ref='DESIGN.md §6 C17',
     rule='stacks of depth 0..50 (thorough 0..2000 and the cell-depth limit 1021..1024) of null / ints at +-2^63, +-(2^63+-1), +-2^256 and random '
          'magnitudes / cells / slices with partly consumed bits and refs / builders / tuples nested to depth 6 with lengths 0..5, 255, 256 / all ten '
-         'continuation kinds with control data (each Maybe on and off, inlined stacks, save lists); each stack is serialised twice, compared '
+         'continuation kinds with control data (each Maybe on and off, inlined stacks, save lists); stacks that hold the SAME object several times (structurally equal parts of a description hash-consed into one '
+         'tuple / slice / builder / continuation object: siblings, cousins at different depths, several stack entries, a shared nil; 27 spelled-out patterns x 4 sharing modes + pool-built and random stacks); each stack is serialised twice, compared '
          'with an independent transcription of the schema, parsed back and compared by content, the caller\'s values are snapshotted before and '
          'after, and the Lean model answers the same requests; distinct = distinct description; non-trivial = depth >= 1',
     trusted_base=['Model/VmStack.lean mirrors tlb/vm_stack.py by hand (BOp/SOp state functions)',
@@ -79,11 +80,37 @@ def _try(f):
         return None, e
 
 
-def check_stack(ctx, cx, stack, tag, corr=True):
+def check_stack(ctx, cx, stack, tag, corr=True, share=None):
+    """share = (mode, salt): the library values are built with aliasing (gen/vmvals.py `sharing`): structurally equal parts of the
+    description are ONE object; everything else - schema cell, canonical form, model request - is a function of the description, so the
+    aliased stack must serialise to exactly the cell of structurally equal copies, leave the objects untouched and parse back"""
+    if share is not None:
+        return _check_aliased(ctx, cx, stack, tag, corr, share)
+    return _check_stack(ctx, cx, stack, tag, corr, None)
+
+
+def _check_aliased(ctx, cx, stack, tag, corr, share):
+    n0 = len(ctx.failures)
+    _check_stack(ctx, cx, stack, tag, corr, share)
+    # the failure key says that aliasing is what it takes when the same description built from separate objects passes
+    new = ctx.failures[n0:]
+    if new:
+        probe = type(ctx)(ctx.prop, ctx.tier, ctx.seed)
+        probe.driver_ok = False
+        _check_stack(probe, cx, stack, tag, False, None)
+        if not probe.failures:
+            for f in new:
+                f['key'] = 'aliased-' + f['key'].split(':')[0] + ':' + share[0]
+                f['what'] = 'with the SAME object at several places of the stack (structurally equal copies pass): ' + f['what']
+
+
+def _check_stack(ctx, cx, stack, tag, corr, share):
     lib = V._lib()[0]
     cx = cx.fresh()
     inp = {'dag': [list(n) for n in V.BASE_DAG], 'stack': stack, 'tag': tag}
-    ctx.case(('stack', repr(stack)), nontrivial=bool(stack), sample={'depth': len(stack), 'top': stack[-1][0] if stack else None})
+    if share is not None:
+        inp['share'] = list(share)
+    ctx.case(('stack', repr(stack)) + ((share[0],) if share else ()), nontrivial=bool(stack), sample={'depth': len(stack), 'top': stack[-1][0] if stack else None})
     for d in stack:
         for k in V.kinds_in(d):
             ctx.count('kind:' + k)
@@ -93,7 +120,13 @@ def check_stack(ctx, cx, stack, tag, corr=True):
         want_canon, toks = V.canon_desc_stack(cx, stack), V.stack_tokens(cx, stack)
     except V.Unencodable:                  # a save-list value has no encoding: no dictionary cell to show the model
         want_canon = toks = None
-    vs = [V.mk_lib(cx, d) for d in stack]
+    if share is None:
+        vs = [V.mk_lib(cx, d) for d in stack]
+    else:
+        with V.sharing(*share) as sh:
+            vs = [V.mk_lib(cx, d) for d in stack]
+        ctx.count('aliased:' + share[0])
+        ctx.count('aliased-objects', sh.aliased())
     try:
         snap0 = V.canon_stack(vs)
     except V.NotCanonical as e:
@@ -323,6 +356,24 @@ def api_level(ctx, cx):
                 ctx.fail(f'mutated:{name}', f'{name}.serialize consumed its argument', {'value': d, 'entry': name}, V.canon_val(v, []), before)
 
 
+def aliased(ctx, cx):
+    """THE CLASS "stacks / tuples that contain the same OBJECT several times": the spelled-out patterns under every sharing mode, then
+    seeded stacks built from a small pool of values used again and again, and ordinary random stacks with their repeated parts aliased"""
+    rng = ctx.rng
+    nb = len(V.BASE_DAG)
+    for stack in V.aliased_directed():
+        for mode in V.SHARE_MODES:
+            check_stack(ctx, cx, stack, 'aliased-directed', share=(mode, rng.randrange(1 << 16)))
+    for t in range(ctx.n(200, 2000)):
+        stack = V.gen_aliased_stack(rng, cx, nb)
+        check_stack(ctx, cx, stack, f'aliased{t}', share=(rng.choice(V.SHARE_MODES), rng.randrange(1 << 16)))
+    for t in range(ctx.n(60, 600)):
+        depth = rng.choice([1, 2, 3, 5, 8])
+        stack = [V.gen_val(rng, cx, nb, rng.choice([1, 2, 3])) for _ in range(depth)]
+        stack += [rng.choice(stack) for _ in range(rng.randrange(1, 4))]
+        check_stack(ctx, cx, stack, f'aliased-rand{t}', share=(rng.choice(V.SHARE_MODES), rng.randrange(1 << 16)))
+
+
 def src_search(ctx, cx):
     """Search mode only: the integers on which the regenerated int64 test (Generated/VmStackTests.lean) differs from the schema's,
     each serialised alone, nested in a tuple and under another value (schema encoding + round trip are checked by check_stack).
@@ -425,9 +476,19 @@ def builder_histories(ctx):
 
 def run(ctx):
     cx = V.Ctx()
+    # a serialize / deserialize method whose PARAMETER LIST differs from the declared interface (an extra parameter threaded through the
+    # recursion carries state the theorems know nothing about) is not merely "outside the translatable subset": the declaration the
+    # c17_src_* theorems rest on is refuted -> a broken obligation (the failing-input search then looks for the concrete input)
+    import re
+    for name, t in (getattr(ctx, 'tie', None) or {}).items():
+        if t.get('status') == 'lost' and re.search(r'parameters \[.*\], declared \[', str(t.get('reason'))):
+            ctx.broken.append({'kind': 'declared-interface', 'detail': f'signature changed: {name}: {t.get("reason")}'[:600]})
     if ctx.search and src_search(ctx, cx):
         return
     builder_histories(ctx)
+    aliased(ctx, cx)
+    if ctx.search and ctx.failures:
+        return
     directed(ctx, cx)
     random_stacks(ctx, cx)
     foreign(ctx, cx)
@@ -437,7 +498,9 @@ def run(ctx):
 def replay(ctx, payload):
     inp = payload.get('input') or {}
     if 'stack' in inp:
-        check_stack(ctx, V.Ctx([tuple([k, b, tuple(r)]) for k, b, r in inp['dag']]) if 'dag' in inp else V.Ctx(), _unjson(inp['stack']), inp.get('tag', 'replay'))
+        sh = inp.get('share')
+        check_stack(ctx, V.Ctx([tuple([k, b, tuple(r)]) for k, b, r in inp['dag']]) if 'dag' in inp else V.Ctx(), _unjson(inp['stack']), inp.get('tag', 'replay'),
+                    share=(sh[0], int(sh[1])) if sh else None)
     elif 'value' in inp:
         api_level(ctx, V.Ctx())
 
